@@ -560,6 +560,9 @@ func TestPropInjectedTypeErrors(t *testing.T) {
 	ev.Check(t, 2500, 30000, func(t *rapid.T) {
 		g := doc.NewG(t, doc.Config{Anchors: rapid.IntRange(0, 2).Draw(t, "anchors") == 0, Timestamps: true, BigNums: true, Floats: true,
 			BigMaps: rapid.IntRange(0, 3).Draw(t, "big") == 0, EmptyKey: true, MergeKeyStr: true, EmptyMatrix: true, UnknownSteps: true, BothCommands: true, Signature: true,
+			// every key the model structs know under their Go field name (`disabled` in a cache mapping) and
+			// collection-valued skips: well-formed or not, the result must marshal
+			CacheDisabledKey: true, OddSkip: true, OddSources: true,
 			MaxSteps: rapid.SampledFrom([]int{5, 5, 14, 30}).Draw(t, "maxsteps")})
 		root := g.Pipeline()
 		var nodes []*yaml.Node
